@@ -10,6 +10,44 @@ pub fn l() -> U {
     })
 }
 
+/// c = l - 2^252, so 2^252 = -c (mod l).
+fn c() -> U {
+    static C: OnceLock<U> = OnceLock::new();
+    *C.get_or_init(|| U::from_dec("27742317777372353535851937790883648493"))
+}
+
+/// x mod l by repeatedly folding 2^252 = -c: x = lo0 - (hi0*c), hi0*c = lo1 - (hi1*c), ...
+/// so x = lo0 - lo1 + lo2 - ... ; the alternating sum is kept as (pos, neg) and made
+/// non-negative with a multiple of l.  Checked against shift-and-subtract division in the
+/// self-test.
+pub fn reduce(x: &U) -> U {
+    let ll = l();
+    let mut pos = U::ZERO;
+    let mut neg = U::ZERO;
+    let mut t = *x;
+    let mut sign = true;
+    loop {
+        let lo = t.low_bits(252);
+        let hi = t.shr(252);
+        if sign {
+            pos = pos.add(&lo);
+        } else {
+            neg = neg.add(&lo);
+        }
+        if hi.is_zero() {
+            break;
+        }
+        t = hi.mul(&c());
+        sign = !sign;
+    }
+    // pos, neg < 4 * 2^252 each (at most 4 terms of < 2^252 per side)
+    let mut r = pos.add(&ll.shl(2)).sub(&neg);
+    while r >= ll {
+        r = r.sub(&ll);
+    }
+    r
+}
+
 #[derive(Clone, Copy, PartialEq, Eq, Hash, Debug, PartialOrd, Ord)]
 pub struct Zl(pub U);
 
@@ -17,7 +55,7 @@ impl Zl {
     pub const ZERO: Zl = Zl(U::ZERO);
     pub const ONE: Zl = Zl(U::ONE);
     pub fn new(x: &U) -> Zl {
-        Zl(x.rem(&l()))
+        Zl(reduce(x))
     }
     pub fn from_u64(x: u64) -> Zl {
         Zl(U::from_u64(x))
